@@ -988,3 +988,33 @@ Lemma embedded_first_by_value_refuted :
   y_dispatch f_val_first [] false [s "Read"] = ([WNone], true)
   /\ g_dispatch [] false [s "Read"] = ([WHost], false).
 Proof. split; reflexivity. Qed.
+
+(* ------------------------------------------------------------------ *)
+(** * Session histories *)
+
+(** No native call between a cancellation and the next evaluation that reaches Execute. *)
+Fixpoint guarded (live : bool) (h : list step) : bool :=
+  match h with
+  | [] => true
+  | SEval :: h' => guarded true h'
+  | SEvalFail :: h' => guarded live h'
+  | SCancel :: h' => guarded false h'
+  | SCallNative :: h' => live && guarded live h'
+  end.
+
+Lemma session_agree : forall h live, guarded live h = true -> y_session live h = g_session h.
+Proof.
+  induction h as [|st h IH]; intros live H; simpl in *; [reflexivity|].
+  destruct st; simpl in *; auto.
+  rewrite andb_true_iff in H. destruct H as [-> H]. f_equal. auto.
+Qed.
+
+Definition h_ok : list step := [SCallNative; SEval; SCancel; SEvalFail; SEval; SCallNative; SCallNative].
+Definition h_dead : list step := [SCallNative; SCancel; SCallNative; SEvalFail; SCallNative; SEval; SCallNative].
+
+Lemma guarded_inhabited : guarded true h_ok = true /\ y_session true h_ok = [OOk; OOk; OOk].
+Proof. split; reflexivity. Qed.
+
+Lemma after_cancel_before_eval_refuted :
+  y_session true h_dead = [OOk; OZero; OZero; OOk] /\ g_session h_dead = [OOk; OOk; OOk; OOk].
+Proof. split; reflexivity. Qed.
